@@ -345,6 +345,94 @@ def skel_composer_applyRemoveAlsoKnownAs : List String :=
 def skel_composer_pointerTokenDecoder : List String :=
   ["strings.NewReplacer(\"~1\", \"/\", \"~0\", \"~\")"]
 
+/-- pkg/vdr/sidetreelongform/dochandler/protocol/nsprovider/namespaceprovider.go -/
+def lit_conc_lock_Provider : List String :=
+  ["Add: Lock, defer Unlock, use clients", "ForNamespace: RLock, defer RUnlock, use clients"]
+
+/-- pkg/vdr/sidetreelongform/dochandler/protocolversion/clientregistry/clientregistry.go -/
+def lit_conc_lock_Registry : List String :=
+  ["Register: Lock, defer Unlock, use factories", "resolveFactory: RLock, defer RUnlock, use factories"]
+
+/-- pkg/versions/1_0/operationparser -/
+def lit_conc_state_versions_1_0_operationparser : List String :=
+  ["var ErrOperationEarly", "var ErrOperationExpired", "var logger"]
+
+/-- pkg/versions/1_0/operationparser/patchvalidator -/
+def lit_conc_state_versions_1_0_operationparser_patchvalidator : List String :=
+  ["var allowedKeyTypes", "var allowedKeyTypesAgreement", "var allowedKeyTypesGeneral", "var allowedKeyTypesVerification", "var allowedPurposes", "var asciiRegex"]
+
+/-- pkg/versions/1_0/operationapplier -/
+def lit_conc_state_versions_1_0_operationapplier : List String :=
+  ["var logger"]
+
+/-- pkg/versions/1_0/doccomposer -/
+def lit_conc_state_versions_1_0_doccomposer : List String :=
+  ["var logger", "var pointerTokenDecoder"]
+
+/-- pkg/versions/1_0/doctransformer/didtransformer -/
+def lit_conc_state_versions_1_0_doctransformer_didtransformer : List String :=
+  ["var defaultKeyContextMap"]
+
+/-- pkg/versions/1_0/doctransformer/doctransformer -/
+def lit_conc_state_versions_1_0_doctransformer_doctransformer : List String :=
+  []
+
+/-- pkg/versions/1_0/doctransformer/metadata -/
+def lit_conc_state_versions_1_0_doctransformer_metadata : List String :=
+  []
+
+/-- pkg/vdr/sidetreelongform/dochandler -/
+def lit_conc_state_vdr_sidetreelongform_dochandler : List String :=
+  []
+
+/-- pkg/vdr/sidetreelongform -/
+def lit_conc_state_vdr_sidetreelongform : List String :=
+  []
+
+/-- pkg/vdr/sidetreelongform/dochandler/protocol/verprovider -/
+def lit_conc_state_vdr_sidetreelongform_dochandler_protocol_verprovider : List String :=
+  []
+
+/-- pkg/vdr/sidetreelongform/dochandler/protocol/nsprovider -/
+def lit_conc_state_vdr_sidetreelongform_dochandler_protocol_nsprovider : List String :=
+  ["Add: m.clients[namespace] (through the receiver)"]
+
+/-- pkg/vdr/sidetreelongform/dochandler/protocolversion/clientregistry -/
+def lit_conc_state_vdr_sidetreelongform_dochandler_protocolversion_clientregistry : List String :=
+  ["Register: r.factories[version] (through the receiver)"]
+
+/-- pkg/jwsutil -/
+def lit_conc_state_jwsutil : List String :=
+  ["var ErrInvalidKey", "UnmarshalJSON: *j (through the receiver)", "UnmarshalJSON: j.JSONWebKey (through the receiver)", "UnmarshalJSON: j.Kty (through the receiver)", "UnmarshalJSON: j.Crv (through the receiver)", "UnmarshalJSON: *b (through the receiver)"]
+
+/-- pkg/hashing -/
+def lit_conc_state_hashing : List String :=
+  []
+
+/-- pkg/canonicalizer -/
+def lit_conc_state_canonicalizer : List String :=
+  []
+
+/-- pkg/internal/jsoncanonicalizer -/
+def lit_conc_state_internal_jsoncanonicalizer : List String :=
+  ["var asciiEscapes", "var binaryEscapes", "var literals"]
+
+/-- pkg/docutil -/
+def lit_conc_state_docutil : List String :=
+  []
+
+/-- pkg/patch -/
+def lit_conc_state_patch : List String :=
+  ["var actionConfig"]
+
+/-- pkg/document -/
+def lit_conc_state_document : List String :=
+  []
+
+/-- pkg/commitment -/
+def lit_conc_state_commitment : List String :=
+  []
+
 /-- pkg/versions/1_0/doctransformer/didtransformer/transformer.go:TransformDocument -/
 def skel_TransformDocument : List String :=
   ["docMetadata, err := metadata.New( metadata.WithIncludeUnpublishedOperations(t.includeUnpublishedOperations), metadata.WithIncludePublishedOperations(t.includePublishedOperations)). CreateDocumentMetadata(rm, info)", "if err != nil {", "  return nil, err", "}", "id, ok := info[document.IDProperty]", "if !ok {", "  return nil, error(...)", "}", "internal := document.DidDocumentFromJSONLDObject(rm.Doc.JSONLdObject())", "external := document.DidDocumentFromJSONLDObject(make(document.DIDDocument))", "ctx := []interface{}{...}", "for _, c := range t.methodCtx {", "  ctx = append(ctx, c)", "}", "if t.includeBase {", "  ctx = append(ctx, getBase(id.(string)))", "}", "alsoKnownAs := internal.AlsoKnownAs()", "if len(alsoKnownAs) > 0 {", "  external[document.AlsoKnownAs] = alsoKnownAs", "}", "external[document.ContextProperty] = ctx", "external[document.IDProperty] = id", "result := &document.ResolutionResult{...}", "err = t.processKeys(internal, result)", "if err != nil {", "  return nil, error(...)", "}", "t.processServices(internal, result)", "return result, nil"]
